@@ -53,6 +53,10 @@ func genC19Token(w *vsim.World, rnd *vsim.Rand, owners []string, tt *tokenTable,
 	case "v2-39", "v2-40", "v2-41", "v2-50":
 		l := map[string]int{"v2-39": 39, "v2-40": 40, "v2-41": 41, "v2-50": 50}[kind]
 		t.secret = randAlnum(rnd, l)
+		if l != 40 && w.Chance(fmt.Sprintf("token%d-hex-only-secret", n), 300) {
+			// an UNSALTED secret that happens to consist of hex digits only (any length but 40)
+			t.secret = randHex(rnd, l)
+		}
 		for refHex40.MatchString(t.secret) {
 			t.secret = randAlnum(rnd, l)
 		}
